@@ -117,7 +117,9 @@ func (cls *CachedLocations) expire(ctx *Context, sys *System, name string, relea
 		}
 		cl.Pending = 0 < cl.pending
 		Log(INFO, ctx, "CachedLocations.expire", "name", name, "cached", "exists")
-		if cl.Pending || cl.Expires.After(time.Now()) {
+		// (An entry without a location is one whose load has
+		// failed; it only stays while somebody still holds it.)
+		if cl.Pending || (cl.Location != nil && cl.Expires.After(time.Now())) {
 			Log(INFO, ctx, "CachedLocations.expire", "name", name, "cached", "live")
 			loc = cl.Location
 		} else {
@@ -145,6 +147,16 @@ func (cls *CachedLocations) Open(ctx *Context, sys *System, name string, check b
 	var err error
 	if loc == nil || dead {
 		Log(INFO, ctx, "CachedLocations.Open", "name", name, "cached", "empty")
+		if cl, have := cls.locs[name]; have {
+			// The load for this entry has failed (the location
+			// has not been created, say), and a request that
+			// tried is not done with the entry yet.  Try
+			// again in that entry rather than replacing it:
+			// requests are counted per entry, and a Release
+			// finds the entry by name.
+			cls.Unlock()
+			return cl.get(ctx, sys, name, check, false)
+		}
 		ctl := sys.Control()
 		ttl := ctl.LocationTTL
 
@@ -322,13 +334,11 @@ func (cl *CachedLocation) get(ctx *Context, sys *System, name string, checkExist
 	}
 	cl.Unlock()
 
-	// Remove from cache if location does not exist so the cache does not explode
-	if nil == cl.Location {
-		VerifYield("CachedLocation.get.cleanup")
-		sys.CachedLocations.Lock()
-		delete(sys.CachedLocations.locs, name)
-		sys.CachedLocations.Unlock()
-	}
+	// An entry whose load has failed is removed from the cache (so
+	// the cache does not explode) when the last request that holds it
+	// releases it: see expire.  (Removing it here, by name, could hit
+	// the entry of a request that has replaced ours meanwhile, and the
+	// Release of this request would then be counted against that entry.)
 
 	return loc, err
 }
@@ -829,6 +839,7 @@ func (sys *System) CreateLocation(ctx *Context, location string) (bool, error) {
 	atomic.AddUint64(&sys.stats.TotalCalls, uint64(1))
 
 	loc, err := sys.findLocation(ctx, location, false)
+	defer sys.releaseLocation(ctx, location)
 	ctx.SetLoc(loc)
 
 	var exists bool
